@@ -119,3 +119,14 @@ Theorem C14_configured_delays_reach_the_store :
   SrcFragments.Fleet_store_transit_delay_wiring = SrcFragments.A_transit_delay /\ SrcFragments.FleetStore_keeps_transit_delay = SrcFragments.A_transit_delay).
 Proof. exact TieWiring.fleet_delays_reach_the_store. Qed.
 Print Assumptions C14_configured_delays_reach_the_store.
+
+(* tie B: the Fleet's queries and statistics refresh only observe its store: the items waiting for a trip and the delivered ones
+   are changed by put / get / the trips alone *)
+From FV Require TieNodes.
+Theorem C14_fleet_observers_leave_the_load_alone :
+  SrcFragments.Fleet_can_put_observes = true /\ SrcFragments.Fleet_can_get_observes = true /\
+  SrcFragments.Fleet_get_occupancy_observes = true /\ SrcFragments.Fleet_get_ready_items_observes = true /\
+  SrcFragments.Fleet_get_items_observes = true /\ SrcFragments.Fleet_update_final_fleet_avg_content_observes = true /\
+  SrcFragments.Fleet_fleet_stats_collector_observes = true.
+Proof. exact TieNodes.fleet_observers_src. Qed.
+Print Assumptions C14_fleet_observers_leave_the_load_alone.
